@@ -1483,6 +1483,11 @@ pub fn gen_pristine(r: &mut Rng, profile: Profile, root: &str, cycle: bool) -> G
             } else {
                 format!("{}\n{}", header, marker_line(i, copy))
             };
+            // rarely a copy starts with a byte-order mark, as some editors write it (a character
+            // the lexer does not know: the file then has a syntax diagnostic and gates the run;
+            // every offset in the file counts the three bytes)
+            let bom = r.chance(1, 40);
+            let (marker, header_at) = if bom { (format!("{}{}", '\u{feff}', marker), 3usize) } else { (marker, 0usize) };
             let off = marker.len();
             let path = format!("{}/{}", d, f.name);
             let text = format!("{}{}", marker, body.s);
@@ -1497,7 +1502,7 @@ pub fn gen_pristine(r: &mut Rng, profile: Profile, root: &str, cycle: bool) -> G
             for x in meta.stmt_starts.iter_mut() {
                 *x += off;
             }
-            meta.stmt_starts.insert(0, 0);
+            meta.stmt_starts.insert(0, header_at);
             if !bare {
                 meta.graph_stmts += 1;
             }
@@ -1513,8 +1518,8 @@ pub fn gen_pristine(r: &mut Rng, profile: Profile, root: &str, cycle: bool) -> G
                 .collect();
             if !header.is_empty() {
                 lx.push(Lexeme {
-                    start: 0,
-                    end: header.len(),
+                    start: header_at,
+                    end: header_at + header.len(),
                     class: "block_comment",
                 });
             }
@@ -1897,6 +1902,39 @@ fn static_damage(r: &mut Rng, g: &mut Generated, profile: Profile) -> Option<&'s
                 (" \"\r\né\\q\"; ", None, 0),
                 (" \"a\r\n\r\n☃\\x\"; ", None, 0),
             ];
+            // A quarter of the time the garbage is written at the very end of a pristine file
+            // instead (after a newline): what is left open there stays open, so every entry is
+            // malformed whatever the file holds.
+            const JUNK_AT_EOF: &[(&str, &str)] = &[
+                ("\"0_1", "eof_bit_string"),
+                ("\"0__1", "eof_bit_string"),
+                ("\"01__", "eof_bit_string"),
+                ("\"__", "eof_bit_string"),
+                ("\"", "eof_string"),
+                ("\"abc", "eof_string"),
+                ("'abc\\'", "eof_string"),
+                ("\"é\\\"", "eof_string"),
+                ("/* open", "eof_block_comment"),
+                ("/*/", "eof_block_comment"),
+                ("/* a /* b */", "eof_block_comment"),
+                ("0x", "eof_prefixed_int"),
+                ("0b_", "eof_prefixed_int"),
+                ("1e+", "eof_exponent_float"),
+                ("2.5E", "eof_exponent_float"),
+                ("OPENQASM 3.", "eof_version"),
+                ("OPENQASM 3.1.", "eof_version"),
+                ("k🙂", "eof_invalid_ident"),
+            ];
+            if !starts.is_empty() && !w.damage.iter().any(|d| d.path == path) && r.chance(1, 4) {
+                let (junk, class) = *r.pick(JUNK_AT_EOF);
+                let at = t.len();
+                t.push('\n');
+                t.push_str(junk);
+                w.nodes.insert(path.clone(), Node::File(t.into_bytes()));
+                w.meta.remove(&path);
+                w.damage.push(Damage { path, kind: "garbage".into(), at, g3: Some((class.to_string(), at + 1)) });
+                return Some("garbage");
+            }
             let n = 1 + r.below(2);
             let mut first_at = 0;
             let mut g3: Option<(String, usize)> = None;
